@@ -4,7 +4,7 @@ import re
 from qv.facts import callee_name, const_name, is_place
 from qv.flow import slice_of
 from qv import paths, tables
-from qv.rulelib import HMWC, HANDLE_QUERY, W, calls_in, enum_variants, mutates_response
+from qv.rulelib import succeeded_before, HMWC, HANDLE_QUERY, W, calls_in, enum_variants, mutates_response
 from rules import writer_common as wc
 
 MODE = 'lib'
@@ -70,11 +70,13 @@ def check(R, F):
     ok = None not in (cms, vtl, ct) and len(oks) == 1
     R.require(ok, 'verify-order', vc.gpath + '|anchors', vc.where(), 'check_mac_size, verify_truncated_left, check_time and one Ok', 'cannot find exactly one call of each of the three checks and one Ok return')
     if ok:
-        R.require(vc.dominates(cms, vtl) and vc.dominates(vtl, ct) and vc.dominates(ct, oks[0]), 'verify-order', vc.gpath + '|size-then-mac-then-time', vc.where(oks[0]), 'MAC size, then MAC, then time, then Ok', 'the checks do not dominate each other in the order size -> MAC -> time -> Ok (RFC 8945 §5.2)')
-        g = paths.dom_guards(vc, oks[0])
-        succ = [x for x in g if re.match(r'^discr\(Result<T, E>::branch\(.*\)\) in \[0\]$', x)]
-        has = lambda s: any(s in x for x in succ)
-        R.require(has('check_mac_size') and has('verify_truncated_left') and has('check_time'), 'verify-order', vc.gpath + '|ok-only-on-success-edges', vc.where(oks[0]), 'Ok only on the success edge of all three', 'Ok is reachable without the success edge of every check: %s' % succ)
+        is_cms = lambda t: callee_name(t) == TS + 'check_mac_size'
+        is_vtl = lambda t: callee_name(t).endswith('Authenticator::verify_truncated_left')
+        is_ct = lambda t: callee_name(t) == TS + 'check_time'
+        order = succeeded_before(vc, vtl, is_cms) and succeeded_before(vc, ct, is_vtl)
+        R.require(order, 'verify-order', vc.gpath + '|size-then-mac-then-time', vc.where(oks[0]), 'MAC size accepted before the MAC is verified; MAC verified before the time is checked', 'the MAC is verified on a path on which check_mac_size did not succeed, or the time is checked on a path on which the MAC was not verified (RFC 8945 §5.2)')
+        allthree = succeeded_before(vc, oks[0], is_ct) and order
+        R.require(allthree, 'verify-order', vc.gpath + '|ok-only-on-success-edges', vc.where(oks[0]), 'Ok only after all three checks succeeded', 'Ok is reachable without the success of every check (size, MAC, time)')
         # MAC failure maps to BadSig, and the MAC verified is the record's MAC
         orr = [t for b, t in vc.calls() if callee_name(t).endswith('Result::<T, E>::or')]
         R.require(len(orr) == 1 and 'VerificationError::BadSig' in paths.show_operand(vc, orr[0]['args'][1]), 'verify-order', vc.gpath + '|mac-mismatch-is-badsig', vc.where(), 'MAC mismatch -> BadSig', 'a MAC mismatch is not mapped to BadSig')
